@@ -861,14 +861,14 @@ theorem contract_decode_utf8 : ∀ args,
         (match xs.mapM byteOf with
           | some bs => (match String.fromUTF8? (ByteArray.mk bs.toArray) with
               | some s => .value (.str s)
-              | none => .okAny)
+              | none => .value (.err "utf8"))
           | none => .error)
       cases xs.mapM byteOf with
       | none => exact refines_err _
       | some bs =>
         dsimp only [decodeUtf8]
         cases String.fromUTF8? (ByteArray.mk bs.toArray) with
-        | none => exact refines_okAny _
+        | none => exact refines_val _
         | some s => exact refines_val _
     all_goals cell
   · first | cell | (cases a <;> cell)
